@@ -157,12 +157,7 @@ impl Smp {
             Smp::Ising(q, _) => serde_json::to_value(q).unwrap(),
             Smp::Gen(q, _) => serde_json::to_value(q).unwrap(),
         };
-        let t = &snap["bond_weights"];
-        if t.is_null() {
-            return None;
-        }
-        let rows = t["max_weight_and_cumulative"].as_array().unwrap();
-        Some((rows.iter().map(|r| r[1].as_f64().unwrap()).collect(), rows.iter().map(|r| r[2].as_f64().unwrap()).collect()))
+        table_of_value(&snap)
     }
     fn bond_weights(&self) -> Option<BondWeights> {
         self.table().map(|(mx, _)| BondWeights::new(mx))
@@ -213,7 +208,26 @@ fn check_table(t: &Option<(Vec<f64>, Vec<f64>)>, bonds: &[TableBond], must_exist
 
 const JS: [f64; 8] = [-2.0, -1.0, -0.5, 0.25, 0.5, 1.0, 1.5, 3.0];
 
-fn gen_ising(g: &mut SplitMix64, rng: &SharedRng) -> (Smp, String) {
+#[derive(Clone, Debug)]
+struct IsingSpec {
+    nvars: usize,
+    edges: Vec<((usize, usize), f64)>,
+    gamma: f64,
+    h: f64,
+    cutoff: usize,
+    state: Vec<bool>,
+}
+impl IsingSpec {
+    fn desc(&self) -> String {
+        let etok: Vec<String> = self.edges.iter().map(|((a, b), j)| format!("{}:{}:{}", a, b, rat(*j))).collect();
+        format!("{} {} {}", etok.join(","), rat(self.gamma), rat(self.h))
+    }
+    fn build(&self, rng: &SharedRng) -> IsingQ {
+        IsingQ::new_with_rng(self.edges.clone(), self.gamma, self.h, self.cutoff, rng.clone(), Some(self.state.clone()))
+    }
+}
+
+fn gen_ising_spec(g: &mut SplitMix64) -> IsingSpec {
     let nvars = g.range(2, 4) as usize;
     let mut edges: Vec<((usize, usize), f64)> = vec![];
     for a in 0..nvars {
@@ -235,10 +249,37 @@ fn gen_ising(g: &mut SplitMix64, rng: &SharedRng) -> (Smp, String) {
     let h = *g.pick(&[0.0, 0.0, 0.25, -0.5, 1.0]);
     let cutoff = g.range(1, 6) as usize;
     let state: Vec<bool> = (0..nvars).map(|_| g.coin()).collect();
-    let q = IsingQ::new_with_rng(edges.clone(), gamma, h, cutoff, rng.clone(), Some(state));
-    let etok: Vec<String> = edges.iter().map(|((a, b), j)| format!("{}:{}:{}", a, b, rat(*j))).collect();
-    let desc = format!("{} {} {} {}", nvars, etok.join(","), rat(gamma), rat(h));
-    (Smp::Ising(q, edges), desc)
+    IsingSpec { nvars, edges, gamma, h, cutoff, state }
+}
+
+/// A partner that passes `can_swap_managers` (same edges, same signs of J and h) but has other magnitudes of
+/// J, Γ and h — i.e. a different bond-weight table.
+fn gen_partner_spec(g: &mut SplitMix64, a: &IsingSpec) -> IsingSpec {
+    let f = [0.25, 0.5, 0.5, 1.0, 2.0, 4.0];
+    let edges = a.edges.iter().map(|(e, j)| (*e, j * *g.pick(&f))).collect();
+    let gamma = a.gamma * *g.pick(&f);
+    let h = a.h * *g.pick(&[0.5, 1.0, 2.0]);
+    IsingSpec { nvars: a.nvars, edges, gamma, h, cutoff: g.range(1, 6) as usize, state: (0..a.nvars).map(|_| g.coin()).collect() }
+}
+
+fn gen_ising(g: &mut SplitMix64, rng: &SharedRng) -> (Smp, String) {
+    let spec = gen_ising_spec(g);
+    let q = spec.build(rng);
+    let desc = format!("{} {}", spec.nvars, spec.desc());
+    (Smp::Ising(q, spec.edges), desc)
+}
+
+fn table_of_ising(q: &IsingQ) -> Option<(Vec<f64>, Vec<f64>)> {
+    table_of_value(&serde_json::to_value(q).unwrap())
+}
+
+fn table_of_value(snap: &serde_json::Value) -> Option<(Vec<f64>, Vec<f64>)> {
+    let t = &snap["bond_weights"];
+    if t.is_null() {
+        return None;
+    }
+    let rows = t["max_weight_and_cumulative"].as_array().unwrap();
+    Some((rows.iter().map(|r| r[1].as_f64().unwrap()).collect(), rows.iter().map(|r| r[2].as_f64().unwrap()).collect()))
 }
 
 /// a random valid interaction: (full matrix over outs++ins, vars, use the diagonal constructor)
@@ -469,6 +510,172 @@ fn tables(g: &mut SplitMix64, ncases: usize) {
     }
 }
 
+/// Pairs of samplers exchanging their operator strings: every sampler's stored table must stay the table of
+/// its OWN Hamiltonian (after every public call).
+fn pair_tables(g: &mut SplitMix64, ncases: usize) {
+    for _ in 0..ncases {
+        // ---- two Ising samplers in a tempering container
+        let (ra, rb) = (SharedRng::new(g.next()), SharedRng::new(g.next()));
+        let sa = gen_ising_spec(g);
+        let sb = gen_partner_spec(g, &sa);
+        let mut tc: TemperingContainer<RecRng, IsingQ> = TemperingContainer::new(RecRng::scripted(vec![0u64; 4096], g.next()));
+        if tc.add_qmc_stepper(sa.build(&ra), 1.0).is_err() || tc.add_qmc_stepper(sb.build(&rb), 1.0).is_err() {
+            emit(true, &format!("pair-rejected {} {}", sa.desc(), sb.desc()), "REJECTED", Some(Err("can_swap_managers rejected a same-sign pair".into())));
+            continue;
+        }
+        let bonds = [Smp::Ising(tc.graph_ref()[0].0.clone(), sa.edges.clone()).bonds(), Smp::Ising(tc.graph_ref()[1].0.clone(), sb.edges.clone()).bonds()];
+        if expected_table(&bonds[0]) != expected_table(&bonds[1]) {
+            stat("pair_ising_tables_differ", 1);
+        }
+        let mut on = [false, false];
+        let mut toks: Vec<String> = vec![];
+        let mut outs: Vec<String> = vec![];
+        let mut oracle = Ok(());
+        let mut swaps = 0usize;
+        let nops = g.range(4, 14) as usize;
+        for _ in 0..nops {
+            let r = g.range(0, 11);
+            let side = g.below(2) as usize;
+            let lr = if side == 0 { "L" } else { "R" };
+            if r < 3 {
+                on[side] = g.chance(4, 5);
+                tc.graph_mut()[side].0.set_enable_heatbath(on[side]);
+                toks.push(format!("{}E{}", lr, on[side] as u8));
+            } else if r < 6 {
+                let beta = *g.pick(&[0.25, 0.5, 1.0, 2.0]);
+                let full = g.coin();
+                let q = &mut tc.graph_mut()[side].0;
+                if catch(|| if full { q.timestep(beta); } else { q.single_diagonal_step(beta) }).is_err() {
+                    stat("pair_step_panicked", 1);
+                    break;
+                }
+                toks.push(format!("{}D", lr));
+                if swaps % 2 == 1 && on[side] {
+                    stat("pair_ising_heatbath_step_after_odd_swaps", 1);
+                }
+            } else if r < 9 {
+                let (l, rr) = tc.graph_mut().split_at_mut(1);
+                if side == 0 {
+                    l[0].0.swap_manager_and_state(&mut rr[0].0);
+                } else {
+                    rr[0].0.swap_manager_and_state(&mut l[0].0);
+                }
+                swaps += 1;
+                toks.push("S".into());
+                stat("pair_ising_swap_direct", 1);
+            } else {
+                let before = tc.get_total_swaps();
+                if catch(|| tc.tempering_step()).is_err() {
+                    stat("pair_step_panicked", 1);
+                    break;
+                }
+                if tc.get_total_swaps() > before {
+                    swaps += 1;
+                    toks.push("S".into());
+                    stat("pair_ising_swap_tempering_step", 1);
+                } else {
+                    toks.push("N".into());
+                    stat("pair_ising_tempering_step_no_swap", 1);
+                }
+            }
+            for i in 0..2 {
+                let t = table_of_ising(&tc.graph_ref()[i].0);
+                if oracle.is_ok() {
+                    oracle = check_table(&t, &bonds[i], on[i]).map_err(|e| format!("sampler {} after {} swaps: {}", if i == 0 { "A" } else { "B" }, swaps, e));
+                    if oracle.is_ok() && !on[i] && t.is_some() {
+                        oracle = Err("table stored although heat-bath is disabled".into());
+                    }
+                }
+                outs.push(show_table(&t));
+            }
+        }
+        if !toks.is_empty() {
+            emit(true, &format!("isingpair {} {} {} {}", sa.nvars, sa.desc(), sb.desc(), toks.join("+")), &outs.join(" "), Some(oracle));
+        }
+
+        // ---- two generic samplers with the same interaction list
+        let (ra, rb) = (SharedRng::new(g.next()), SharedRng::new(g.next()));
+        let nvars = g.range(1, 4) as usize;
+        let mut qs = [GenQ::new_with_state(nvars, ra.clone(), vec![false; nvars], false), GenQ::new_with_state(nvars, rb.clone(), (0..nvars).map(|_| g.coin()).collect::<Vec<bool>>(), false)];
+        let mut vars_list: Vec<Vec<usize>> = vec![];
+        let mut hb = [false, false];
+        let mut toks: Vec<String> = vec![];
+        let mut outs: Vec<String> = vec![];
+        let mut oracle = Ok(());
+        let nops = g.range(4, 14) as usize;
+        for _ in 0..nops {
+            let r = g.range(0, 11);
+            let side = g.below(2) as usize;
+            let lr = if side == 0 { "L" } else { "R" };
+            let mut must = [false, false];
+            let mut n_new = 1;
+            if r < 3 || vars_list.is_empty() {
+                let (mat, vars, d) = gen_interaction(g, nvars);
+                for q in qs.iter_mut() {
+                    add_interaction(q, &mat, &vars, d).unwrap();
+                }
+                toks.push(format!("LA!{}:0:{}", list(&vars), rats(&mat)));
+                toks.push(format!("RA!{}:0:{}", list(&vars), rats(&mat)));
+                vars_list.push(vars);
+                n_new = 2;
+            } else if r < 5 {
+                hb[side] = g.chance(4, 5);
+                qs[side].set_do_heatbath(hb[side]);
+                toks.push(format!("{}H{}", lr, hb[side] as u8));
+            } else if r < 8 {
+                let beta = *g.pick(&[0.25, 0.5, 1.0, 2.0]);
+                if catch(|| qs[side].diagonal_update(beta)).is_err() {
+                    stat("pair_step_panicked", 1);
+                    break;
+                }
+                toks.push(format!("{}D", lr));
+                must[side] = hb[side];
+            } else {
+                let (l, rr) = qs.split_at_mut(1);
+                if side == 0 {
+                    l[0].swap_manager_and_state(&mut rr[0]);
+                } else {
+                    rr[0].swap_manager_and_state(&mut l[0]);
+                }
+                toks.push("S".into());
+                stat("pair_generic_swap_direct", 1);
+            }
+            let mut line = vec![];
+            for i in 0..2 {
+                let smp = Smp::Gen(qs[i].clone(), vars_list.clone());
+                let t = smp.table();
+                if oracle.is_ok() {
+                    oracle = check_table(&t, &smp.bonds(), must[i]);
+                }
+                line.push(show_table(&t));
+            }
+            for k in 0..n_new {
+                // after the first of the two add tokens the right sampler has not got the interaction yet in the
+                // model; the real code has already added both: report the table tokens of the final state for the
+                // second token only, and for the first token what the state machine says (tables dropped on the left)
+                if n_new == 2 && k == 0 {
+                    outs.push("none".into());
+                    outs.push(line_prev_right(&outs));
+                } else {
+                    outs.push(line[0].clone());
+                    outs.push(line[1].clone());
+                }
+            }
+        }
+        emit(true, &format!("genpair {}", toks.join("+")), &outs.join(" "), Some(oracle));
+    }
+}
+
+/// the right sampler's previous table token (third from the end after the left token has been pushed), or `none`
+fn line_prev_right(outs: &[String]) -> String {
+    // outs currently ends with the left token of this step; the previous step's right token is two before it
+    if outs.len() >= 2 {
+        outs[outs.len() - 2].clone()
+    } else {
+        "none".into()
+    }
+}
+
 /// the real `make_bond_weights` on a table Hamiltonian (columns)
 fn real_columns(bonds: &[TableBond]) -> (Vec<f64>, Vec<f64>) {
     table_columns(&real_table(bonds))
@@ -483,8 +690,15 @@ fn cfg_of(s: &Smp, beta: f64) -> Cfg {
     Cfg { bonds: s.bonds(), nvars: state.len(), state, slots: s.slots(), cutoff: s.cutoff(), beta }
 }
 
-fn make_sampler(g: &mut SplitMix64, rng: &SharedRng) -> (Smp, &'static str) {
-    if g.coin() {
+fn make_sampler(g: &mut SplitMix64, rng: &SharedRng) -> (Smp, &'static str, Option<IsingQ>) {
+    let r = g.below(8);
+    if r == 0 {
+        // an Ising sampler that will receive the operator string of a partner with other coupling magnitudes
+        let sa = gen_ising_spec(g);
+        let sb = gen_partner_spec(g, &sa);
+        let partner = sb.build(&SharedRng::new(g.next()));
+        (Smp::Ising(sa.build(rng), sa.edges), "ising_swapped", Some(partner))
+    } else if r < 4 {
         let (mut s, _) = gen_ising(g, rng);
         let rvb = g.coin();
         if rvb {
@@ -492,21 +706,45 @@ fn make_sampler(g: &mut SplitMix64, rng: &SharedRng) -> (Smp, &'static str) {
                 q.set_run_rvb(true);
             }
         }
-        (s, if rvb { "ising_rvb" } else { "ising" })
+        (s, if rvb { "ising_rvb" } else { "ising" }, None)
     } else if g.chance(1, 3) {
-        (gen_generic_multi(g, rng), "generic_manybody")
+        (gen_generic_multi(g, rng), "generic_manybody", None)
     } else {
-        (gen_generic(g, rng), "generic")
+        (gen_generic(g, rng), "generic", None)
     }
+}
+
+/// for kind `ising_swapped`, after heat-bath has been configured: warm both samplers up and exchange the
+/// operator strings (an odd number of swaps), as a tempering step between different Hamiltonians does
+fn swap_in_partner(g: &mut SplitMix64, smp: &mut Smp, partner: &mut Option<IsingQ>, heat: bool, beta: f64) -> bool {
+    if let (Smp::Ising(q, _), Some(p)) = (smp, partner.as_mut()) {
+        p.set_enable_heatbath(heat);
+        for _ in 0..g.range(1, 3) {
+            if catch(|| { q.timestep(beta); p.timestep(beta); }).is_err() {
+                return false;
+            }
+        }
+        for _ in 0..(2 * g.range(0, 1) + 1) {
+            if g.coin() {
+                q.swap_manager_and_state(p);
+            } else {
+                p.swap_manager_and_state(q);
+            }
+        }
+    }
+    true
 }
 
 fn sweeps(g: &mut SplitMix64, nsamplers: usize) {
     for _ in 0..nsamplers {
         let rng = SharedRng::new(g.next());
-        let (mut smp, kind) = make_sampler(g, &rng);
+        let (mut smp, kind, mut partner) = make_sampler(g, &rng);
         let heat = g.chance(3, 4);
         enable_heatbath(&mut smp, heat);
         let beta = *g.pick(&[0.25, 0.5, 1.0, 2.0]);
+        if !swap_in_partner(g, &mut smp, &mut partner, heat, beta) {
+            continue;
+        }
         let has_h = smp.bonds().iter().any(|b| !b.constant && b.vars.len() == 1);
         for step in 0..6 {
             // a few full time steps first (cluster / RVB / loop updates create off-diagonal operators)
@@ -514,7 +752,7 @@ fn sweeps(g: &mut SplitMix64, nsamplers: usize) {
                 stat("sweeps_warmup_panicked", 1);
                 break;
             }
-            if step == 3 && g.coin() {
+            if step == 3 && partner.is_none() && g.coin() {
                 // toggling must leave the sampler consistent
                 enable_heatbath(&mut smp, !heat);
                 enable_heatbath(&mut smp, heat);
@@ -559,9 +797,12 @@ fn sweeps(g: &mut SplitMix64, nsamplers: usize) {
 
 fn prob_case(g: &mut SplitMix64) -> bool {
     let rng = SharedRng::new(g.next());
-    let (mut smp, kind) = make_sampler(g, &rng);
+    let (mut smp, kind, mut partner) = make_sampler(g, &rng);
     enable_heatbath(&mut smp, true);
     let beta = *g.pick(&[0.25, 0.5, 1.0, 2.0]);
+    if !swap_in_partner(g, &mut smp, &mut partner, true, beta) {
+        return false;
+    }
     for _ in 0..g.range(2, 6) {
         if catch(|| smp.timestep(beta)).is_err() {
             return false;
@@ -760,6 +1001,7 @@ fn main() {
     let mut g = SplitMix64::new(a.seed ^ 0xC02);
     match a.mode.as_str() {
         "tables" => tables(&mut g, if a.thorough { 15000 } else { 1500 }),
+        "pairs" => pair_tables(&mut g, if a.thorough { 8000 } else { 800 }),
         "sweeps" => sweeps(&mut g, if a.thorough { 8000 } else { 1000 }),
         "prob" => {
             let want = if a.thorough { 3000 } else { 300 };
